@@ -19,6 +19,7 @@ import (
 )
 
 type world struct {
+	pets   []interface{}
 	outs   map[string]bool // names of the output fields of the schema
 	nOut   int
 	root   *ggql.Root
@@ -84,7 +85,30 @@ type lres struct{ xs []interface{} }
 func (l *lres) Len() int              { return len(l.xs) }
 func (l *lres) Nth(i int) interface{} { return l.xs[i] }
 
+// PetCat and PetDog implement the interface Pet; each declares the argument x of say with another type (Int / ID).
+// Their Go names are the GraphQL names, so that they are bound by name (iface world).
+type PetCat struct {
+	calls int
+	got   interface{}
+	has   bool
+}
+type PetDog struct{ PetCat }
+
+func (p *PetCat) Resolve(field *ggql.Field, args map[string]interface{}) (interface{}, error) {
+	p.calls++
+	p.got, p.has = args["x"]
+	return "ok", nil
+}
+
 func (w *world) serve(field *ggql.Field, args map[string]interface{}) (interface{}, error) {
+	if field.Name == "pets" {
+		return w.pets, nil
+	}
+	if field.Name == "two" {
+		w.calls++
+		w.got = []interface{}{args["p"], args["q"]}
+		return "ok", nil
+	}
 	w.calls++
 	if strings.HasPrefix(field.Name, "a") {
 		w.got, w.gotHas = args["x"]
@@ -112,7 +136,8 @@ func sdlOf(u *Universe, inTypes, outTypes []*TRef) string {
 	for _, o := range u.Objects {
 		b.WriteString("type " + o + " { id: String }\n")
 	}
-	b.WriteString("type Query {\n")
+	b.WriteString("interface Pet { say: String }\ntype PetCat implements Pet { say(x: Int): String }\ntype PetDog implements Pet { say(x: ID): String }\n")
+	b.WriteString("type Query {\n  pets: [Pet]\n  two(p: Int!, q: Int!): String\n")
 	seen := map[string]bool{}
 	for _, t := range inTypes {
 		if n := "a" + t.Enc(); !seen[n] {
@@ -170,6 +195,103 @@ func companion(t *TRef) *TRef {
 }
 
 // ---------------------------------------------------------------- C04
+
+// runPets: the case's literal / variable as the argument x of the field say selected on a list of the interface Pet whose
+// members alternate between a type that declares x as ID and one that declares it as Int.  The members whose
+// declaration is the case's type must see exactly what the specification prescribes for that type, whatever the
+// other members' declaration made of the same text.  (iface world, cases of type Int and ID.)
+func (w *world) runPets(c *Case) (obs []inObs, ok bool) {
+	if w.any || c.T.K != "named" || (c.T.N != "Int" && c.T.N != "ID") || c.Rx {
+		return nil, false
+	}
+	req := strings.Replace(requestIn(c), "a"+c.T.Enc()+"(", "pets { say(", 1)
+	if !strings.Contains(req, "pets { say(") {
+		return nil, false // (the argument is left out: nothing to coerce)
+	}
+	req = strings.TrimSuffix(strings.TrimSpace(req), "}") + "} }"
+	var vars map[string]interface{}
+	if len(c.Given) > 0 {
+		vars = map[string]interface{}{}
+		for k, v := range c.Given {
+			vars[k] = buildIn(v)
+		}
+	}
+	pets := []interface{}{&PetDog{}, &PetCat{}, &PetDog{}, &PetCat{}}
+	w.pets = pets
+	resp := w.root.ResolveString(req, "", vars)
+	errs, _ := resp["errors"].([]interface{})
+	data, hasData := resp["data"].(map[string]interface{})
+	for i, p := range pets {
+		var pc *PetCat
+		isCat := false
+		switch tp := p.(type) {
+		case *PetCat:
+			pc, isCat = tp, true
+		case *PetDog:
+			pc = &tp.PetCat
+		}
+		if isCat != (c.T.N == "Int") {
+			continue
+		}
+		o := inObs{Calls: pc.calls, Got: pc.got, Request: req + fmt.Sprintf(" [member %d, a %T]", i, p), Errs: errs, Data: resp["data"]}
+		fieldErr := false
+		for _, e := range errs {
+			if em, ok := e.(map[string]interface{}); ok {
+				if pp, ok := em["path"].([]interface{}); ok && len(pp) >= 3 && pp[0] == "pets" && pp[1] == i && pp[2] == "say" {
+					fieldErr = true
+				}
+			}
+		}
+		switch {
+		case pc.calls == 1 && !fieldErr && hasData:
+			o.Out = "call"
+		case pc.calls == 0 && fieldErr && hasData:
+			o.Out = "fielderr"
+		case pc.calls == 0 && !hasData && len(errs) > 0:
+			o.Out = "varerr"
+		default:
+			o.Out = "other"
+			o.Why = fmt.Sprintf("calls=%d errors=%v data=%v", pc.calls, errs, data)
+		}
+		obs = append(obs, o)
+	}
+	return obs, true
+}
+
+// runReq2: the field two(p: Int!, q: Int!) with each argument given as the case says.
+func (w *world) runReq2(c *Case) inObs {
+	var parts []string
+	for _, n := range []string{"p", "q"} {
+		switch c.St[n] {
+		case "lit":
+			parts = append(parts, n+": 1")
+		case "null":
+			parts = append(parts, n+": null")
+		case "unset":
+			parts = append(parts, n+": $u"+n)
+		}
+	}
+	req := "query($up: Int, $uq: Int) { two"
+	if len(parts) > 0 {
+		req += "(" + strings.Join(parts, ", ") + ")"
+	}
+	req += " }"
+	w.calls, w.got = 0, nil
+	resp := w.root.ResolveString(req, "", nil)
+	o := inObs{Calls: w.calls, Got: w.got, Request: req, Data: resp["data"]}
+	o.Errs, _ = resp["errors"].([]interface{})
+	data, hasData := resp["data"].(map[string]interface{})
+	switch {
+	case w.calls == 1 && len(o.Errs) == 0 && hasData && data["two"] == "ok":
+		o.Out = "call"
+	case w.calls == 0 && len(o.Errs) > 0:
+		o.Out = "reject"
+	default:
+		o.Out = "other"
+		o.Why = fmt.Sprintf("calls=%d errors=%d data=%v", w.calls, len(o.Errs), resp["data"])
+	}
+	return o
+}
 
 type inObs struct {
 	Out     string // call | fielderr | varerr | other
